@@ -174,8 +174,14 @@ func Diff(path string, want, got any) string {
 			w, ok2 := y[k]
 			switch {
 			case !ok1:
+				if w == nil {
+					continue // absent and null are the same observation
+				}
 				return fmt.Sprintf("%s.%s: unexpected %s", path, k, short(w))
 			case !ok2:
+				if v == nil {
+					continue
+				}
 				return fmt.Sprintf("%s.%s: missing (want %s)", path, k, short(v))
 			}
 			if d := Diff(path+"."+k, v, w); d != "" {
